@@ -90,7 +90,7 @@ MCNext ==
         /\ ures' = <<res, cd, p>> /\ UNCHANGED <<crecv, ceof, hgot>>
   \/ Step(\E res \in {"ok", "err"} : SOpenRet(S, res)) /\ Same
   \/ Step(\E p \in Pays : S \in DOMAIN calls /\ Len(calls[S].sent) < MaxMsg /\ SSend(S, p)) /\ Same
-  \/ Step(\E res \in {"ok", "err"} : SSendRet(S, res)) /\ Same
+  \/ Step(\E res \in {"ok", "err"} : SSendRet(S, res, "other")) /\ Same
   \/ Step(SClose(S)) /\ Same
   \/ Step(\E res \in {"ok", "err"} : SCloseRet(S, res)) /\ Same
   \/ \E res \in {"msg", "eof", "err"}, cd \in {-1, 0, 1, 5}, p \in Pays \cup {""} :
